@@ -62,7 +62,7 @@ def _has_quant(t):
 class Engine(MatrixTheory, NumpyTheory, Evaluator):
     BUILTINS = {'len', 'min', 'max', 'abs', 'int', 'range', 'list', 'tuple', 'isinstance', 'slice', 'all', 'any',
                 'implies', 'old', 'enumerate', 'zip', 'ceil', 'floor', 'float', 'bool', 'str', 'dict', 'getattr',
-                'round', 'iff', 'sorted', 'ite', 'map', 'super', 'fresh_obj', 'same_fields_except', 'is_fresh', 'psum', 'ops_fold', 'op_row', 'nblocks', 'flat', 'elems', 'is_list', 'is_none', 'smul', 'smul_def', 'sq', 'rpsum', 'same_rows', 'same_lengths', 'width', 'same_widths'}
+                'round', 'iff', 'sorted', 'ite', 'map', 'super', 'fresh_obj', 'same_fields_except', 'is_fresh', 'psum', 'ops_fold', 'op_row', 'nblocks', 'flat', 'elems', 'is_list', 'is_none', 'smul', 'smul_def', 'sq', 'rpsum', 'same_rows', 'same_lengths', 'width', 'same_widths', 'depth'}
 
     def __init__(self, spec_module_path=None):
         self.obs = []
@@ -152,8 +152,8 @@ class Engine(MatrixTheory, NumpyTheory, Evaluator):
             lv, n = st.heap.fresh_list(t[1], base)
             st.assume(n >= 0)
             return VList(lv.ref, nd=(k == 'arr'))
-        if k in ('mat', 'flatmat'):
-            return self.fresh_mat(t[1], base, st, flat=(k == 'flatmat'))
+        if k in ('mat', 'flatmat', 'cube'):
+            return self.fresh_mat(t[1], base, st, flat=(k == 'flatmat'), cube=(k == 'cube'))
         if k == 'rag':
             rv, cnt, lens = st.heap.fresh_rag(t[1], base)
             q = z3.Int(fresh_name('q'))
@@ -403,9 +403,9 @@ class Engine(MatrixTheory, NumpyTheory, Evaluator):
             return cands
         if len(cands) == 1:
             c = cands[0]
-            if any(str(t).startswith(('mat[', 'flatmat[')) for t in c.params.values()):
+            if any(str(t).startswith(('mat[', 'flatmat[', 'cube[')) for t in c.params.values()):
                 env = self.bind_params(c, args, kw, st)
-                if not all(self.value_matches(env[n], parse_type(t), st) for n, t in c.params.items() if n in env and str(t).startswith(('mat[', 'flatmat['))):
+                if not all(self.value_matches(env[n], parse_type(t), st) for n, t in c.params.items() if n in env and str(t).startswith(('mat[', 'flatmat[', 'cube['))):
                     raise Unsupported('the only contract of %s in scope is for matrix arguments' % c.qual)
             return c
         for c in cands:
@@ -450,8 +450,8 @@ class Engine(MatrixTheory, NumpyTheory, Evaluator):
             return isinstance(v, VTuple) and len(v.items) == len(t[1]) and all(self.value_matches(x, y, st) for x, y in zip(v.items, t[1]))
         if k == 'slice':
             return isinstance(v, VSlice) and all(self.value_matches(x, y, st) for x, y in zip((v.start, v.stop, v.step), t[1:]))
-        if k in ('mat', 'flatmat'):
-            return isinstance(v, VMat) and v.flat == (k == 'flatmat') and st.heap.rags[v.ref].etype == t[1]
+        if k in ('mat', 'flatmat', 'cube'):
+            return isinstance(v, VMat) and v.flat == (k == 'flatmat') and st.heap.rags[v.ref].etype == t[1] and (v.depth is not None) == (k == 'cube')
         if k == 'rag':
             return isinstance(v, VRag) and not isinstance(v, VMat)
         if k == 'obj':
@@ -654,6 +654,8 @@ class Engine(MatrixTheory, NumpyTheory, Evaluator):
             # rpsum(list_of_arrays, p): number of elements in the first p arrays
             rc = st.heap.rags[args[0].ref]
             return VInt(self.rag_psum(rc, st)(as_int(args[1])))
+        if name == 'depth':
+            return VInt(args[0].depth)
         if name == 'width':
             return VInt(self.mcell(args[0], st)[2])
         if name == 'same_widths':
